@@ -475,3 +475,11 @@ pub fn pick_token(rng: &mut Rng, mask: &[u32], ws: &[Vec<u8>], eos: u32) -> Opti
         Some(*rng.pick(&non_eos))
     }
 }
+
+/// the engine stopped because of a documented resource limit (not modelled: accounting differs)
+pub fn is_resource_limit(m: &Matcher) -> bool {
+    match m.get_error() {
+        Some(e) => e.contains("Too many items") || e.contains("too many states") || e.contains("too many expressions") || e.contains("fuel"),
+        None => false,
+    }
+}
